@@ -7,8 +7,8 @@ from props import ordlib as L
 
 PROP = "C09"
 PROPS_V = "theories/Props/C09.v"
-THEOREMS = ["C09_agg_merge_assoc_comm", "C09_agg_partition", "C09_total_is_wrapped_sum", "C09_agg_partition_refuted",
-            "C09_agg_partition_outside_known", "C09_each_event_one_group", "C09_pipeline_equals_fold", "C09_limit_caps_groups",
+THEOREMS = ["C09_agg_merge_assoc_comm", "C09_agg_partition", "C09_total_is_wrapped_sum", "C09_int_column_metrics", "C09_agg_partition_refuted",
+            "C09_agg_partition_outside_known", "C09_each_event_one_group", "C09_pipeline_equals_fold", "C09_flow_alts_outside_known", "C09_limit_caps_groups",
             "C09_bucket_contains", "C09_bucket_on_boundary", "C09_calendar_bucket_of_exact"]
 RULE = ("(1) full pipeline runs: 1-3 flows x 1-3 batches of generated rows (time, group-by values, metric field values of every "
         "runtime kind incl. nulls) through the real AggregateOp per flow and the real partial-row parser / AggState::merge / "
